@@ -150,6 +150,9 @@ func (router *Router) FindRoute(req *http.Request) (*routers.Route, map[string]s
 		if pathItem.GetOperation(method) == nil {
 			return nil, nil, &routers.RouteError{Reason: routers.ErrMethodNotAllowed.Error()}
 		}
+		// the request path spells a declared template literally (/books/{id}.json) and the tree does not
+		// lead to it: there is no route to return
+		return nil, nil, &routers.RouteError{Reason: routers.ErrPathNotFound.Error()}
 	}
 
 	if pathParams == nil {
